@@ -165,6 +165,10 @@ def crash_run(variant, at_iteration, action, total=None, suspend=False, lost=Fal
                         await asyncio.sleep(0.5)
                     out["healed"] = healed
                     obs.append(observe(st, loop, tracker))
+                    # the manager is connected again: every connection-scoped task name is alive once - a second one belongs to the abandoned connection
+                    d1 = set(duplicate_tasks(loop))
+                    await asyncio.sleep(0.6)
+                    out["dups_after_reconnect"] = sorted(d1 & set(duplicate_tasks(loop)))
             out["iterations"] = loop.iterations
             out["obs"] = obs
             out["states"] = [(round(t - 1000, 2), s) for (t, s) in st.states][-10:]
@@ -283,6 +287,9 @@ def run(ctx):
                 if action == "exit" and (r["exit_open"] or r["exit_tasks"]):
                     ctx.fail("ledger:exit_leaves:%s" % r["state_at"], "after leaving the context in %s: %d endpoints open, tasks alive %s" % (r["state_at"], r["exit_open"], r["exit_tasks"][:4]), replay)
                 if action == "reset":
+                    if r.get("dups_after_reconnect"):
+                        ctx.fail("ledger:task_of_abandoned_connection:%s" % r["dups_after_reconnect"][0], "after the reset in %s and the reconnect two live tasks are named %s: one belongs to the abandoned connection" % (
+                            r["state_at"], r["dups_after_reconnect"][:3]), replay)
                     if r["healed"] is None:
                         ctx.fail("ledger:no_reconnect_after_reset:%s" % r["state_at"], "120 virtual seconds after a reset in %s the manager is not CONNECTED again" % r["state_at"], replay)
                     if r["final_open"] or r["final_tasks"]:
